@@ -163,6 +163,8 @@ def reference(stream: bytes):
         sp, dp = struct.unpack("!HH", body[32:36])
         return ("valid", f"{t}6({g(body[:16]).encode().hex()}:{sp})", f"{t}6({g(body[16:32]).encode().hex()}:{dp})", payload)
     if stream[:5] == b"PROXY"[:len(stream[:5])] and len(stream) >= 1:
+        if len(stream) < 8:
+            return ("incomplete",)                # a receiver may wait for 8 bytes before it looks at the line
         i = stream.find(b"\r\n")
         if i < 0:
             return ("incomplete",) if len(stream) <= 107 - 1 else ("invalid", "v1 line longer than 107") if len(stream) > 107 else ("incomplete",)
@@ -344,7 +346,7 @@ def fam(stream, lim, desc):
 def gen(rng, tier):
     cases = []
     thorough = tier == "thorough"
-    n = 40 if not thorough else 1500
+    n = 60 if not thorough else 1500
     for _ in range(n):
         v = rng.choice([1, 2])
         h = v1_header(rng) if v == 1 else v2_header(rng)
@@ -355,6 +357,14 @@ def gen(rng, tier):
         h = mutate(rng, v1_header(rng) if v == 1 else v2_header(rng))
         s = h + payload(rng)
         cases.append(fam(s, 6 if not thorough else 17, f"v{v}-mutated"))
+    # the 107-byte limit of version 1, with and without the CRLF, whole and cut around the limit
+    for total in range(104, 111):
+        body = b"PROXY UNKNOWN " + bytes(rng.choice(b"xyz 09:") for _ in range(total - 14))
+        for s in (body, body + b"\r", body[:-2] + b"\r\n", body[:-2] + b"\r\npayload"):
+            cases.append({"chunks": [s.hex()], "desc": "v1-limit"})
+            for cut in (100, 105, 106, 107, 108):
+                if cut < len(s):
+                    cases.append({"chunks": [s[:cut].hex(), s[cut:].hex()], "desc": "v1-limit"})
     for _ in range(4 * n):
         v = rng.choice([1, 2])
         h = v1_header(rng) if v == 1 else v2_header(rng)
